@@ -133,6 +133,15 @@ def assumptions(pid, thms):
     return res
 
 
+def manifest_props():
+    import json
+    try:
+        m = json.loads((VERIF / "MANIFEST.json").read_text())
+        return sorted({c["property_id"] for c in m["checks"]})
+    except Exception:
+        return []
+
+
 def build(pid=None, extra_dirs=(), all_props=False):
     b = CoqBuild()
     t0 = time.time()
@@ -143,9 +152,11 @@ def build(pid=None, extra_dirs=(), all_props=False):
         info, errs = regenerate(None if all_props else [pid])
         b.generated = info
         fs = write_project()
-        b.gate_hits = gate(None if all_props else ["Lib", "Generated", pid] + list(extra_dirs))
+        claimed = manifest_props()
+        b.gate_hits = gate((["Lib", "Generated"] + claimed) if all_props else ["Lib", "Generated", pid] + list(extra_dirs))
         if all_props:
-            targets = [str(f)[:-2] + ".vo" for f in fs]
+            # only the properties claimed in MANIFEST.json (work in progress in other directories is not built)
+            targets = [str(f)[:-2] + ".vo" for f in fs if f.parts[0] in claimed or f.parts[0] == "Generated"]
         else:
             dirs = [pid] + list(extra_dirs)
             targets = [str(f)[:-2] + ".vo" for f in fs if f.parts[0] in dirs]
